@@ -242,7 +242,7 @@ def seq_histories(ctx, exe, stats):
     """'The same sequential behaviour holds for every single-threaded history': all call sequences of bounded
     length over a small alphabet, executed by one thread, judged by the same oracle."""
     import itertools
-    alphabet = [W("a", 0), W("a", 1), W("b", 0), HI(0, 0), HI(1, 0), HG(0), RM("a"), RM("b"), RS, CO]
+    alphabet = [W("a", 0), W("a", 1), W("b", 0), HI(0, 0), HI(1, 0), HG(0), RM("a"), RM("b"), RS, CO, RMM("a"), RMM("b"), WM("b", 1)]
     L = 4 if ctx.quick else 5
     jobs_by_scen = []
     n = 0
